@@ -264,6 +264,14 @@ class Analyzer:
         elif decl.endswith("Iterator::next"):
             src = a(0)
             r = Role("next_opt", of=src) if src.kind == "iter" else Role("other", why=f"next of {src!r}")
+        elif decl.endswith("Option::<T>::map") and len(args) == 2:
+            # `bound.map(i128::from)` / `.map(|b| i128::from(b))`: still the facet, widened; anything else done to it is not understood
+            src = a(0)
+            conv = self._pure_widening(args[1])
+            if src.kind == "facet_opt" and conv:
+                r = Role("facet_opt", facet=src.facet, flags=set(getattr(src, "flags", set())))
+            else:
+                r = Role("other", why=f"call {decl} on {src!r}" + ("" if conv else " with a function that is not a plain conversion"))
         elif decl.endswith("Option::<T>::is_none"):
             src = a(0)
             r = Role("absent", facet=src.facet) if src.kind == "facet_opt" else (
@@ -288,6 +296,39 @@ class Analyzer:
             else:
                 r = Role("other", why=f"call {decl}")
         return self.apply_fields(r, o.proj, flags)
+
+    def _pure_widening(self, operand):
+        """the function handed to `map` is `From::from` / `Into::into` between integer types that widen, or a closure doing only that"""
+        for o in M.trace(self.B, operand, ()):
+            if o.kind == "const":
+                p = o.const.get("fn_path") or ""
+                g = o.const.get("gargs") or []
+                if p.endswith(("convert::From::from", "convert::Into::into")) and len(g) == 2:
+                    src, dst = (g[1], g[0]) if p.endswith("From::from") else (g[0], g[1])
+                    if widening(src, dst) is True or src == dst:
+                        continue
+                return False
+            if o.kind == "aggregate" and o.rv.get("closure"):
+                cb = self.F.lib.body(o.rv["closure"])
+                if cb is None or not cb.get("mir"):
+                    return False
+                CB = M.Body(cb)
+                for _, t in CB.calls():
+                    d = M.Body.callee_decl(t) or ""
+                    g = (t.get("func") or {}).get("gargs") or []
+                    if d.endswith(("convert::From::from", "convert::Into::into")) and len(g) == 2:
+                        src, dst = (g[1], g[0]) if d.endswith("From::from") else (g[0], g[1])
+                        if widening(src, dst) is True or src == dst:
+                            continue
+                    return False
+                # no arithmetic on the way
+                for i in sorted(CB.reach):
+                    for st in CB.blocks[i]["stmts"]:
+                        if st["k"] == "assign" and st["rv"]["k"] in ("binop", "unop", "cast"):
+                            return False
+                continue
+            return False
+        return True
 
     # ---- path enumeration -------------------------------------------------------------------
     def explore(self):
